@@ -262,6 +262,8 @@ def summarise(ctx, b, flavour):
                 continue
             if f[0] == "discr" and tag(f[1]) == "call" and isinstance(f[1][1], str) and f[1][1].endswith("checked_sub"):
                 continue    # carried by the comparison it implies (sym.implied_facts): Some <=> b <= a
+            if f[0] == "discr" and tag(f[1]) == "tryfrom":
+                continue    # Ok <=> the value fits the target type: carried by the two comparisons (Err is expanded into its two cases by dnf.guard_dnf_pairs)
             if f[0] == "discr" and tag(f[1]) == "filter":
                 opt, pv = f[1][1], f[1][2]
                 if f[2] in (("eq", 0), ("ne", (1,))) and tag(opt) == "call" and isinstance(opt[1], str) and opt[1].endswith("checked_add"):
